@@ -384,13 +384,14 @@ def _arm_crash(after: int, marker: str) -> None:
 
 
 def _arm_race(action: dict, result: dict) -> None:
-    """Another process re-trains (and commits a new generation) right after the first state load of this action."""
-    from forml.provider.registry.filesystem import posix
+    """Another process re-trains (and commits a new generation) right after the first state load of this action
+    (`asset.State.load` has returned once - whether it found a generation or the release was still empty)."""
+    from forml.io.asset import _access
 
-    original = posix.Registry.read
+    original = _access.State.load
     fired = []
 
-    def read(self, *args, **kwargs):
+    def load(self, *args, **kwargs):
         data = original(self, *args, **kwargs)
         if not fired:
             fired.append(True)
@@ -399,8 +400,8 @@ def _arm_race(action: dict, result: dict) -> None:
             result['raced'] = _forked(perform, race).get('status')
         return data
 
-    posix.Registry.read = read
-    result['_disarm'] = lambda: setattr(posix.Registry, 'read', original)
+    _access.State.load = load
+    result['_disarm'] = lambda: setattr(_access.State, 'load', original)
 
 
 def perform(action: dict) -> dict:
@@ -517,6 +518,16 @@ def _compositions(ast, hp: int = 0, with_sink: bool = False):
     return first, second
 
 
+def _input_port(port) -> int:
+    from forml.flow._graph import port as portmod
+
+    if isinstance(port, portmod.Train):
+        return 1000
+    if isinstance(port, portmod.Label):
+        return 1001
+    return int(port)
+
+
 def extract_comp(comp) -> dict:
     """Canonical graph of a real `flow.Composition`: workers reachable from the two heads (through every kind of
     subscription) closed under group membership; uids/gids numbered by first occurrence."""
@@ -561,18 +572,27 @@ def extract_comp(comp) -> dict:
         nodes.append([uid[id(n)], g, int(n.builder.kwargs.get('tag', 0)) if 'tag' in n.builder.kwargs else 0,
                       bool(n.stateful), bool(n.trained)])
     edges = []
+    ports = []  # per edge: [output port index of the publisher, input port of the subscriber (Train 1000, Label 1001)]
     for n in order:
-        for port in n.output:
+        for index, port in enumerate(n.output):
             for sub in port:
                 if id(sub.node) in uid:
                     edges.append([uid[id(n)], uid[id(sub.node)]])
+                    ports.append([index, _input_port(sub.port)])
     extra = itertools.count(len(order))
 
     def ref(node):
         return uid[id(node)] if id(node) in uid else next(extra)
 
     # pylint: disable=protected-access
-    return {'nodes': nodes, 'edges': edges,
+    # `Segment.copy`: a dangling Future tail is just a proxy of the publisher it is registered with
+    from forml.flow._graph import atomic
+
+    copy_tail = comp.apply._tail
+    while isinstance(copy_tail, atomic.Future) and copy_tail is not comp.apply._head and copy_tail._input:
+        (publisher,) = copy_tail._input
+        copy_tail = publisher._node
+    return {'nodes': nodes, 'edges': edges, 'ports': ports, 'copy_tail': ref(copy_tail),
             'heads': [ref(comp.apply._head), ref(comp.apply._tail), ref(comp.train._head), ref(comp.train._tail)],
             'persistent': [nodes[next(k for k, n in enumerate(order) if n.gid == g)][2] for g in comp.persistent],
             'apply_stateful': sorted({nodes[uid[id(n)]][2] for n in visited(comp.apply) if n.stateful}),
@@ -651,8 +671,9 @@ def _act_forked(action: dict) -> dict:
 
 
 def _subprocess(action: dict) -> dict:
+    # (cwd: forml opens ./<program>.log upon import - keep it inside the case's scratch directory)
     proc = subprocess.run([sys.executable, os.path.abspath(__file__), '--action'], input=json.dumps(action),
-                          capture_output=True, text=True, timeout=600)
+                          capture_output=True, text=True, timeout=600, cwd=os.path.dirname(action['log']))
     for line in proc.stdout.split('\n'):
         if line.startswith('C04-RESULT '):
             return json.loads(line[len('C04-RESULT '):])
@@ -701,10 +722,15 @@ def run_case(job: dict) -> dict:
 
 
 def _run_case_safe(job: dict) -> dict:
+    import time
+
+    t0 = time.time()
     try:
-        return run_case(job)
+        out = run_case(job)
     except Exception as err:  # pylint: disable=broad-except
-        return {'machinery': f'{type(err).__name__}: {err}'[:800]}
+        out = {'machinery': f'{type(err).__name__}: {err}'[:800]}
+    out['wall'] = time.time() - t0
+    return out
 
 
 # ==================================================================================================
@@ -781,8 +807,17 @@ def spec_violations(case: dict, steps: list) -> list:
                     continue
                 if selected is None:
                     if o is not None:
-                        out.append((i, f"{who} holds a state of actor {o['tag']} although no generation is loaded",
-                                    f'{mode}:state-of-other-generation'))
+                        stateless = [int(e['tag']) for e in step['events'] if e['ev'] == 'apply' and e.get('stateful')
+                                     and e.get('origin') is None and int(e['tag']) in trained_in.get(race_run, set())]
+                        if raced and int(o['run']) == race_run and int(o['tag']) == tag and stateless:
+                            # the action started on an empty release; the very first commit of another process slipped in
+                            # between two of its loads: `latest` is not pinned while the release is empty (finding C04-F2)
+                            out.append((i, f"{who} holds the state of the racing first training run {race_run} while actor(s) "
+                                           f'{sorted(set(stateless))} of the same run got none: the action started on an empty '
+                                           'release and did not pin that', 'latest-unpinned-on-empty-release'))
+                        else:
+                            out.append((i, f"{who} holds a state of actor {o['tag']} although no generation is loaded",
+                                        f'{mode}:state-of-other-generation'))
                     continue  # nothing stored is loaded: outside the property
                 if o is None:
                     if tag in producers:
@@ -855,6 +890,11 @@ CORPUS_ASTS = [
     (['stack', [_M(1), _M(2)], 2, 3, 4, 5, 6], True),
     (_seq(_M(1), ['stack', [_seq(_M(2), _M(3))], 2, 4, 5, 6, 7]), False),
     (_seq(_M(1, False), _M(2, False)), False),                                 # nothing to persist
+    (_seq(_M(1), _par(['wrap', NONE, NONE, [2, True]], _M(3)), _M(4)), True),  # a branch without apply worker: the merger
+    (_seq(_par(['wrap', NONE, [1, True], NONE], ['wrap', NONE, NONE, [2, True]]), _M(3)), True),  # ... subscribes directly
+    # a shortcut subscription (the merger hangs off the fork itself *and* off its siblings): Traversal.copy re-creates
+    # the fork's subscriptions in another order (not copyFaithful), the depth-first order stays
+    (_seq(_M(1), _par(_M(2), _M(3), ['wrap', NONE, NONE, [4, True]]), _M(5)), True),
 ]
 
 # `train!k`: the training process dies before the k+1-th micro-step of its commit; `apply~`: a re-training commits
@@ -866,6 +906,7 @@ CORPUS_HISTORIES = [
     ['train', 'apply~', 'perftrack~', 'serve~', 'apply', 'perftrack:1'],
     ['apply', 'train', 'serve', 'train:1', 'apply:3', 'apply:2'],
     ['train', 'train!7', 'apply', 'perftrack', 'train!9', 'serve'],
+    ['apply~', 'perftrack', 'train', 'serve~', 'apply'],               # the very first commit races with a load
 ]
 
 
@@ -917,20 +958,27 @@ class C04(fw.Check):
     LEAN_MODULES = ['ForML.Props.C04']
     DRIVER = 'drv_c04'
     RULE = ('pipeline expressions (hand-picked corpus + props/pipegen.Gen: wrap mapper/apply/train/label operators '
-            'stateful and stateless, MapReduce, Dump, FullStack, every nesting, 1..5 leaves) x histories of 1..6 '
+            'stateful and stateless, MapReduce, Dump, FullStack, a user fan-out operator `Parallel` with 2-3 branches holding '
+            'stateful actors merged into one tail, every nesting, 1..5 leaves; with and without sink) x histories of 1..6 '
             'lifecycle actions (train / re-train from latest or explicit generation, batch apply latest/explicit, '
-            'perftrack evaluation, pyfunc serving call; hyper-parameter of the current code changes per action) run on '
+            'perftrack evaluation, pyfunc serving call; hyper-parameter of the current code changes per action) with faults '
+            '(the training process dies before the k+1-th file-system micro-step of posix.Registry.write/close; a re-training '
+            'of another process commits right after the first asset.State.load of a loading action, also on a still empty '
+            'release) + sweeps (a training dying at each micro-step, every loading mode racing with a commit) run on '
             'the real dask(synchronous)/pyfunc runners over a real posix registry, every action in a fresh interpreter '
             '(subprocess), in a fresh forked process (fork) or all in one process (inprocess). A case is distinct by '
-            '(expression, history, isolation) and non-trivial when at least one action loaded a stored generation into '
+            '(expression, sink, history, isolation) and non-trivial when at least one action loaded a stored generation into '
             'at least two stateful actors.')
     TRUSTED = [
         'the composition graph given to the model is extracted from the real expansion (C03 owns expression -> graph); '
-        'two fresh expansions are checked to be equal up to uuids on every case',
+        'two fresh expansions are checked to be equal up to uuids on every case; for mappers / >> / two-branch fan-outs the '
+        'model expands the graph itself and the check compares it with the extracted one',
         'the test project reads its expression / hyper-parameter from the environment (package import machinery is '
         'exercised, not verified); symbolic actors use the default Actor get_state/set_state/get_params/set_params',
         'CPython reference counting decides when dangling Futures die (real code path, not modelled)',
         'pyfunc cases whose Expression cannot be built (fork directly at the source: C02 defects) are skipped for serving',
+        'fault injection wraps pathlib.Path.mkdir/open/rename inside posix.Registry.write/close (process exit) and '
+        'asset.State.load (commit of another process after the first load): the wrapped functions run unchanged',
     ]
     ASSUMPTIONS = [
         'uuid4 values are structurally fresh: an expansion depends on node/group ids only through equality '
@@ -938,6 +986,9 @@ class C04(fw.Check):
         'parametricity: the flow layer never inspects payloads',
         'a stateful actor that is only ever trained (never applied in apply mode) is not persisted by design '
         '(docstring of Composition.persistent); the oracle does not demand a previous state for it',
+        'a process dies between, not inside, file-system calls (rename is atomic); readers see a generation iff its tag file exists',
+        'an action on an empty release addresses no generation: nothing is demanded of it unless it mixes in states of a '
+        'generation committed meanwhile (finding C04-F2)',
     ]
 
     # ---- generation ----------------------------------------------------------------------------
@@ -989,8 +1040,8 @@ class C04(fw.Check):
             crash, race = None, False
             if faults and kind == 'train' and rng.random() < 0.2:
                 crash = rng.randint(0, 16)  # beyond the last micro-step: the training completes
-            if faults and kind != 'train' and trained and rng.random() < 0.25:
-                race = True
+            if faults and kind != 'train' and rng.random() < (0.25 if trained else 0.1):
+                race = True  # (on a still empty release: the very first commit slips in between two loads)
             out.append({'kind': kind, 'gen': gen, 'hp': rng.randint(0, 9), 'crash': crash, 'race': race})
             if kind == 'train' and (gen is None or gen <= trained):
                 trained += 1  # upper bound of the generations that may exist
@@ -1008,7 +1059,7 @@ class C04(fw.Check):
                 else:
                     hist = self._history()
                 if iso == 'subprocess' and self.quick:
-                    hist = hist[:4]  # a fresh interpreter costs ~2.5 s per action
+                    hist = hist[:3]  # a fresh interpreter costs ~2.5 s per action on an idle box, ~25 s at load average 60
                 jobs.append({'ast': ast, 'sink': snk, 'history': hist, 'isolation': iso, 'shape': shape(ast)})
         return jobs + self._sweep_jobs()
 
@@ -1068,9 +1119,9 @@ class C04(fw.Check):
     def _comp_sexp(c: dict):
         if 'error' in c:
             return ['error']
-        return ['comp', [list(n) for n in c['nodes']], [list(e) for e in c['edges']]] + list(c['heads'])
+        return ['comp', [list(n) for n in c['nodes']], [list(e) + list(p) for e, p in zip(c['edges'], c['ports'])]] + list(c['heads'])
 
-    def _model_line(self, job: dict, ext: dict, steps: typing.Optional[list] = None) -> str:
+    def _model_line(self, job: dict, ext: dict, steps: typing.Optional[list] = None, expr=None) -> str:
         """The case for the model. Faults are told as they really happened: a crash only if the process died (with the
         number of completed micro-steps), a race only if the racing re-training ran and committed."""
         acts = []
@@ -1079,7 +1130,10 @@ class C04(fw.Check):
             crash = res.get('done') if res.get('status') == 'crashed' else None
             race = [100 + i, (a['hp'] + 5) % 10] if res.get('raced') == 'ok' else None
             acts.append([a['kind'], a['gen'], i, a['hp'], 1000 * (i + 1), crash, race])
-        return sexp.dumps(['case', self._comp_sexp(ext['plain']), self._comp_sexp(ext['perf']), bool(job.get('sink')), acts])
+        if expr is not None:
+            return sexp.dumps(['expr', expr, bool(job.get('sink')), acts])
+        return sexp.dumps(['case', self._comp_sexp(ext['plain']), self._comp_sexp(ext['perf']), bool(job.get('sink')), acts,
+                           int(ext['plain']['copy_tail'])])
 
     @staticmethod
     def _model_steps(answer: str):
@@ -1095,7 +1149,10 @@ class C04(fw.Check):
                 steps.append({'status': 'error', 'error': st[1]})
             else:
                 steps.append({'status': 'ok', 'ngens': st[1], 'obs': sorted(st[2], key=json.dumps)})
-        return {'wf': wf, 'ptags': ptags, 'steps': steps, 'perfmodel': m[4][1], 'tail_clean': tail_clean}
+        out = {'wf': wf, 'ptags': ptags, 'steps': steps, 'tail_clean': tail_clean}
+        if len(m) > 4:
+            out.update({'perfmodel': m[4][1], 'perfspec': m[4][2], 'copy_faithful': m[5][1], 'ports_ok': m[5][2], 'paths': m[5][3]})
+        return out
 
     PYFUNC_LIMITS = {'IndexError', 'AssertionError'}  # C02: forks at the head / Push-Pop order (not C04's subject)
 
@@ -1135,16 +1192,40 @@ class C04(fw.Check):
         if model is None:
             return
         self.extra.setdefault('perftrack_composition_vs_model', collections.Counter())[model['perfmodel']] += 1
-        if model['perfmodel'] == 'differ':
-            self.diverge('the composition of pipeline >> PerfTrackScore built by the real code differs from the one the model '
-                         'derives from the plain composition (refusal / occurrences behind Composition.persistent)', case,
+        self.extra.setdefault('perftrack_composition_vs_spec', collections.Counter())[model['perfspec']] += 1
+        self.extra.setdefault('traversal_copy_faithful', collections.Counter())[
+            f"copyFaithful={model['copy_faithful']} paths={model['paths'] if model['paths'] == 'error' else min(int(model['paths']), 9)}"] += 1
+        if model['ports_ok'] != 'true':
+            raise fw.MachineryError(f'extraction of {case}: subscriptions with ports do not match the subscriptions')
+        if model['perfspec'] == 'differ':
+            # Composition.persistent of the evaluation's composition lists other occurrences (or other positions) than
+            # the plain composition's: what eval_perftrack loads is bound differently from what training committed
+            self.diverge('the composition of pipeline >> PerfTrackScore built by the real code does not persist the occurrences '
+                         'of the plain composition position by position (the model derives it with an order-preserving copy of '
+                         f"the apply segment; with the copy as Traversal.copy is modelled: {model['perfmodel']})", case,
                          (ext.get('perf') or {}).get('persistent', (ext.get('perf') or {}).get('error')), 'Comp.perfOf')
+        elif model['perfmodel'] == 'differ':
+            # the mechanical model of Traversal.copy and the real code disagree although the real copy is order-preserving
+            # on this graph: a matter of the model (or of a harmless re-ordering), not of the property
+            self.notes.append(f"Traversal.copy as modelled (Comp.perfMech) persists other positions than the real copy for {job['ast']}")
+        elif model['perfmodel'] in ('impl-refuses', 'model-refuses') and model['perfspec'] != model['perfmodel']:
+            self.notes.append(f"perftrack composition of {job['ast']}: refusal differs between the models ({model['perfmodel']} / {model['perfspec']})")
         if ext and ext['plain'].get('persistent') is not None:
             mp = [t for t in model['ptags']]
             if mp != ext['plain']['persistent']:
                 self.extra.setdefault('persistent_order_differs', []).append({'ast': job['ast'], 'impl': ext['plain']['persistent'], 'model': mp})
+        listed = 0
         for i, (act, st, ms) in enumerate(zip(job['history'], steps, model['steps'])):
             r = st['result']
+            listed_before, listed = listed, (len(r['generations']) if r.get('generations') is not None else listed)
+            if r.get('raced') == 'ok' and listed_before == 0 and act['gen'] is None and r['status'] == 'ok':
+                # finding C04-F2: which of the loads came first is a matter of the scheduler; only the registry is compared
+                self.histogram['(step compared by registry only: first commit racing with an action on an empty release)'] += 1
+                if ms['status'] != 'ok' or listed != ms['ngens']:
+                    self.diverge('generations after an action on an empty release raced with the first commit', {**case, 'step': i},
+                                 listed, ms.get('ngens', ms.get('error')))
+                    return
+                continue
             if r['status'] == 'error' and act['kind'] == 'serve' and r.get('error') in self.PYFUNC_LIMITS and r.get('where') == 'build':
                 self.histogram['(serve skipped: pyfunc cannot express the graph)'] += 1
                 continue
@@ -1181,21 +1262,52 @@ class C04(fw.Check):
                 return
 
     def _process(self, jobs: list) -> None:
+        import time
+
+        t0 = time.time()
         results = self._run(jobs)
+        self.extra.setdefault('timing_s', {})['real_code'] = round(time.time() - t0, 1)
+        slow = sorted(((r.get('wall', 0), j['isolation'], j['shape']) for j, r in zip(jobs, results)), reverse=True)[:3]
+        self.extra['timing_s']['slowest_cases'] = [[round(w, 1), iso, shp[:60]] for w, iso, shp in slow]
         lines, idx = [], []
         for k, (job, res) in enumerate(zip(jobs, results)):
             if 'machinery' not in res and res.get('extract'):
                 lines.append(self._model_line(job, res['extract'], res['steps']))
                 idx.append(k)
+                expr = model_expr(job['ast'])
+                if expr is not None:
+                    lines.append(self._model_line(job, res['extract'], res['steps'], expr=expr))
+                    idx.append(('expr', k))
         answers = dict(zip(idx, self.model(lines))) if lines else {}
         for k, (job, res) in enumerate(zip(jobs, results)):
             model = self._model_steps(answers[k]) if k in answers else None
             if k in answers and model is None:
                 raise fw.MachineryError(f'model driver rejected the case: {answers[k][:200]}')
+            if ('expr', k) in answers and model is not None:
+                own = self._model_steps(answers[('expr', k)])
+                if own is None:
+                    raise fw.MachineryError(f"model driver rejected the expression: {answers[('expr', k)][:200]}")
+                self._compare_expansion(job, model, own)
             if model is not None:
                 self.extra.setdefault('model_wf', collections.Counter())[
                     f"wfPlain={model['wf'][0]} wfPerf={model['wf'][1]} tailClean={model['tail_clean']}"] += 1
             self._judge(job, res, model)
+
+    def _compare_expansion(self, job: dict, extracted: dict, own: dict) -> None:
+        """The composition the model expands itself from the expression (`compOf`) against the graph extracted from the
+        real expansion: persistent occurrences position by position, well-formedness, and every action of the history."""
+        self.extra.setdefault('model_expansion_vs_extraction', collections.Counter())
+        case = {'ast': job['ast'], 'sink': bool(job.get('sink')), 'history': job['history'], 'isolation': job['isolation']}
+        for what, a, b in (('persistent occurrences', extracted['ptags'], own['ptags']),
+                           ('wfPlain', extracted['wf'][0], own['wf'][0]),
+                           ('tailClean', extracted['tail_clean'], own['tail_clean']),
+                           ('actions', extracted['steps'], own['steps'])):
+            if a != b:
+                self.extra['model_expansion_vs_extraction']['differ'] += 1
+                self.diverge(f'{what}: the composition the model expands from the expression differs from the one extracted '
+                             'from the real expansion', case, a if what != 'actions' else 'extracted', b if what != 'actions' else 'compOf')
+                return
+        self.extra['model_expansion_vs_extraction']['agree'] += 1
 
     def _exhaustive_jobs(self) -> list:
         """DESIGN section 5 (thorough): every pipeline of <= 3 leaves over {stateful mapper, stateless mapper, stateful
@@ -1222,19 +1334,29 @@ class C04(fw.Check):
         if not self.quick:
             jobs += self._exhaustive_jobs()
         self._process(jobs)
-        for k in ('action_outcomes', 'model_wf', 'perftrack_composition_vs_model'):
+        for k in ('action_outcomes', 'model_wf', 'perftrack_composition_vs_model', 'perftrack_composition_vs_spec',
+                  'traversal_copy_faithful', 'model_expansion_vs_extraction'):
             if k in self.extra:
                 self.extra[k] = dict(self.extra[k])
         # minimise one witness per root cause (the others carry the same signature and are folded by the framework)
-        seen: set = set()
+        seen: set = set(self._listed_signatures())  # violations of listed findings are folded by the framework as they are
         for idx, v in enumerate(self.violations):
-            if v.signature in seen or len(seen) >= 4:
+            if v.signature in seen or len(seen) >= 5:
                 continue
             seen.add(v.signature)
             small = self._shrink(v.witness, v.signature)
             if small != v.witness:
                 self.violations[idx] = fw.Violation(v.what.replace(f"step {v.witness['step']}:", f"step {small['step']}:"),
                                                     small, v.signature, v.detail)
+
+    @staticmethod
+    def _listed_signatures() -> list:
+        path = os.path.join(os.path.dirname(os.path.abspath(__file__)), '..', '..', 'findings.d', 'C04.json')
+        try:
+            with open(path) as f:
+                return [e['signature'] for e in json.load(f) if e.get('status') == 'finding']
+        except (OSError, ValueError, KeyError):
+            return []
 
     # ---- search / replay -----------------------------------------------------------------------
     def search(self, reason):
@@ -1304,6 +1426,42 @@ class C04(fw.Check):
         for i, what, sig in spec_violations(case, res['steps']):
             return fw.Violation(what, w, sig, {'events': impl_observations(res['steps'][i]['events'])[:12]})
         return None
+
+
+def model_expr(ast):
+    """The expression in the grammar of lean/ForML/Model/PersistExpr.lean (wrap operators builder by builder, `>>`,
+    two-branch fan-out), or None when the pipeline uses an operator the model does not expand itself."""
+    k = ast[0]
+    if k == 'wrap':
+        lab, app, trn = ast[1], ast[2], ast[3]
+        if lab != NONE and list(lab) in [list(x) for x in (app, trn) if x != NONE]:
+            return None  # one builder shared between the label slot and another one: not modelled
+        steps = []
+        if lab != NONE:
+            steps.append(['l', int(lab[0]), bool(lab[1])])
+        if app != NONE and trn != NONE and list(app) == list(trn):
+            steps.append(['m', int(app[0]), bool(app[1])])  # wrap.Operator.mapper: one builder for apply and train
+        else:
+            if app != NONE:
+                steps.append(['a', int(app[0]), bool(app[1])])
+            if trn != NONE:
+                steps.append(['t', int(trn[0]), bool(trn[1])])
+        if not steps:
+            return None
+        out = steps[0]
+        for step in steps[1:]:
+            out = ['seq', out, step]  # wrap.Operator.compose goes through its builders in this order
+        return out
+    if k == 'seq':
+        a, b = model_expr(ast[1]), model_expr(ast[2])
+        return None if a is None or b is None else ['seq', a, b]
+    if k == 'par' and len(ast[1]) == 2:
+        a, b = model_expr(ast[1][0]), model_expr(ast[1][1])
+        return None if a is None or b is None else ['par', a, b, int(ast[2])]
+    if k == 'mapreduce' and len(ast[1]) == 2:
+        # payload.MapReduce(m1, m2, reducer=r): two mappers side by side on the same input, merged by the reducer
+        return ['par', ['m', int(ast[1][0][0]), bool(ast[1][0][1])], ['m', int(ast[1][1][0]), bool(ast[1][1][1])], int(ast[2])]
+    return None
 
 
 def leaf_stateful(ast):
